@@ -6,6 +6,7 @@ package vimap
 
 import (
 	"fmt"
+	"os"
 	"strconv"
 	"strings"
 
@@ -33,6 +34,9 @@ type Server struct {
 	// DropChoices > 0: before handling each command the environment may drop the connection
 	// (alternative 1 = clean close, 2 = reset); each costs one deviation.
 	Drop bool
+	// Cut: when answering a command the environment may lose the connection inside the tagged
+	// completion line (1 = clean close, 2 = reset); each costs one deviation.
+	Cut bool
 	// StepYield: yield between the responses of one command (lets other threads interleave).
 	Cmds     []Cmd
 	Tags     []string
@@ -256,6 +260,32 @@ func (s *Server) Run() {
 		}
 		if resp == "" {
 			resp = c.Tag + " OK done\r\n"
+		}
+		if s.Cut {
+			// the connection may be lost inside the tagged completion: after "<tag> <status>",
+			// before the end of the line (1 = clean close, 2 = reset); each costs one deviation
+			k := vsched.Choose(3, 1, "server-cut-inside-completion")
+			if os.Getenv("VIMAP_FORCE_CUT") != "" { // debugging aid
+				k = 1
+			}
+			if k != 0 {
+				cut := strings.LastIndex(strings.TrimSuffix(resp, "\r\n"), "\r\n") + 2 // start of the last line
+				if cut < 2 {
+					cut = 0
+				}
+				f := strings.SplitN(resp[cut:], " ", 3)
+				if len(f) >= 3 {
+					// "<tag> <status> <first half of the text>": the status word is complete (followed
+					// by its delimiter), the line is not
+					s.send(resp[:cut] + f[0] + " " + f[1] + " " + f[2][:len(f[2])/2])
+				}
+				s.Dead = true
+				if k == 2 {
+					s.End.Peer().InjectReadError(vnet.ErrReset)
+				}
+				s.End.Close()
+				return
+			}
 		}
 		s.send(resp)
 		if c.Name == "LOGOUT" {
